@@ -6,6 +6,7 @@ import Astits.Model.Mux
 import Astits.Props.C14
 import Astits.Proofs.Layout
 import Astits.Proofs.PSIRT
+import Astits.Proofs.SIRT
 namespace Astits.C13
 
 /-- one PAT entry: 16-bit program_number, 3 reserved bits, 13-bit PID — all values round-trip -/
@@ -340,5 +341,368 @@ example : PMTTypedOk exPMTTyped := by
       exact ⟨by decide, by decide, by decide, by decide⟩
 
 end TypedDescriptors
+
+/-! ## SI tables the library cannot write: TOT, SDT, NIT, EIT parsed from the reference encoder's bytes
+
+(helpers in `Astits/Proofs/SIRT/`, namespace `Astits.SIRT`).  The library has no writer for these tables, so the
+theorems are about `parsePSIData` on `Spec.unitEncode ptr [Spec.sectionEncode s] stuffing`: pointer_field, `ptr` filler
+bytes, the reference encoding of one section (ISO/IEC 13818-1 2.4.4, EN 300 468 5.2; CRC_32 from the bit-serial
+`Spec.crc`), `stuffing` bytes 0xFF.
+
+* `siSection t ssi priv sh d` is the section value handed to the encoder — table id, section_syntax_indicator, private
+  bit, syntax header, table data; the encoder reads nothing else (`SIRT.sectionEncode_norm`).
+* `delivered t ssi priv sh d' body` is what comes back: the same flags and syntax header, the table data `d'`, and the
+  three fields the parser recomputes — `sectionLength = |body| + 4`, `tableType = tableType t`,
+  `crc32 = Spec.crc` of all section bytes before the CRC field.  It is exactly the expected value the generators
+  build (`SIRT.mkSection_eq : Gen.mkSection t priv sh d = (delivered …, Spec.sectionEncode …)`), see `*_parse_mkSection`.
+* `d'` is `d` except that the id which travels in the syntax header (`SDT.TransportStreamID`, `NIT.NetworkID`,
+  `EIT.ServiceID`) is the header's `table_id_extension`, as for PAT/PMT above.
+* trailing stuffing: the loop of `parsePSIData` appends the "Null" section of the FIRST 0xFF byte and stops there
+  (`stopSections`, `stopBytes`): one extra `PSISection{Header{TableID 0xff, TableType "Null"}}` whenever `stuffing > 0`.
+* `ptr` is a byte in real inputs; the statements hold for every natural number.
+* descriptors: `Spec.sectionEncode` takes the descriptor bytes from `writeDescriptors` ("their own reference encoding
+  is C14's"); `SIRT.sectionEncodeE Spec.descEncode` is the same section with every descriptor encoded by the
+  independent reference `Spec.descEncode`.  Both are covered (`*_parse`, `*_parse_spec`) for all well-formed typed and
+  user-defined descriptors (`C14.DescWF`), with no round-trip hypothesis left: `SIRT.encWF_writer` is C14's
+  `desc_ok_wf`, `SIRT.encWF_spec` is T5 below.
+-/
+
+section SITables
+open Astits.SIRT Astits.DescRT
+
+/-! ### T5: model writer = independent reference encoder, per descriptor kind -/
+
+/-- **reference encoder = library writer** for every well-formed typed descriptor except AC-3 (one theorem per kind:
+`SIRT.spec_eq_writer_avc_video`, `…_component`, `…_content`, `…_data_stream_alignment`, `…_enhanced_ac3`,
+`…_extended_event`, `…_extension`, `…_iso639_language_and_audio_type`, `…_local_time_offset`, `…_maximum_bitrate`,
+`…_network_name`, `…_parental_rating`, `…_private_data_indicator`, `…_private_data_specifier`, `…_registration`,
+`…_service`, `…_short_event`, `…_stream_identifier`, `…_subtitling`, `…_teletext`, `…_vbi_data`, `…_vbi_teletext`,
+`…_unknown`, `…_user_defined`) -/
+theorem spec_eq_writer (d : Descriptor) (h : C14.TypedWF d) (hac3 : d.tag ≠ descriptorTagAC3) :
+    Spec.descEncode d = writeDescriptor d := spec_eq_writer_typed d h hac3
+
+/-- **AC-3 is the exception** (recorded finding): in the flags byte the reference writes reserved_flags = 0000 as
+EN 300 468 D.3 prescribes, the library writes 1111; tag, length, the four flags and every other byte agree -/
+theorem ac3_spec_vs_writer (x : DescriptorAC3) (wf : AC3WF x) :
+    (Spec.descEncode (ofAC3 x)).getD 2 0 % 16 = 0 ∧ (writeDescriptor (ofAC3 x)).getD 2 0 % 16 = 15 ∧
+    (Spec.descEncode (ofAC3 x)).take 2 = (writeDescriptor (ofAC3 x)).take 2 ∧
+    (Spec.descEncode (ofAC3 x)).getD 2 0 / 16 = (writeDescriptor (ofAC3 x)).getD 2 0 / 16 ∧
+    (Spec.descEncode (ofAC3 x)).drop 3 = (writeDescriptor (ofAC3 x)).drop 3 := ac3_reserved_flags x wf
+
+/-- **the parser accepts the reference bytes of every well-formed descriptor** (AC-3 included: the parser does not look
+at the reserved bits): wherever `Spec.descEncode d` stands, `parseDescriptor` returns `d` and stops right after it -/
+theorem spec_desc_ok (d : Descriptor) (h : C14.DescWF d) : SpecDescOk d := specDescOk_wf d h
+
+example : Spec.descEncode (ofAC3 { hasBSID := true, bsid := 8, additionalInfo := [1] }) = [0x6a, 3, 0x40, 8, 1] := by decide
+example : writeDescriptor (ofAC3 { hasBSID := true, bsid := 8, additionalInfo := [1] }) = [0x6a, 3, 0x4f, 8, 1] := by decide
+
+/-! ### T1: TOT (table id 0x73; no syntax header, CRC_32) -/
+
+/-- TOT for either per-descriptor encoder -/
+theorem tot_parse_of (enc : Descriptor → Bytes) (E : EncWF enc) (ptr stuffing : Nat) (ssi priv : Bool) (d : TOTData) (hd : TOTWF d) :
+    parsePSIData ⟨Spec.unitEncode ptr [sectionEncodeE enc 0x73 ssi priv none { tot := some d }] stuffing, 0⟩ =
+      .ok ({ pointerField := (ptr : Int),
+             sections := delivered 0x73 ssi priv none { tot := some d } (sectionBodyE enc 0x73 none { tot := some d })
+               :: stopSections stuffing },
+        ⟨Spec.unitEncode ptr [sectionEncodeE enc 0x73 ssi priv none { tot := some d }] stuffing,
+          ((1 + ptr + (sectionEncodeE enc 0x73 ssi priv none { tot := some d }).length + stopBytes stuffing : Nat) : Int)⟩) :=
+  tot_parse_enc enc E.pos ptr stuffing ssi priv d (hd.ok E)
+
+/-- **TOT**: every UTC time within MJD 15079..65535, every loop of well-formed descriptors that fits the section,
+any pointer_field, any amount of trailing stuffing -/
+theorem tot_parse (ptr stuffing : Nat) (ssi priv : Bool) (d : TOTData) (hd : TOTWF d) :
+    parsePSIData ⟨Spec.unitEncode ptr [Spec.sectionEncode (siSection 0x73 ssi priv none { tot := some d })] stuffing, 0⟩ =
+      .ok ({ pointerField := (ptr : Int),
+             sections := delivered 0x73 ssi priv none { tot := some d } (sectionBody 0x73 none { tot := some d })
+               :: stopSections stuffing },
+        ⟨Spec.unitEncode ptr [Spec.sectionEncode (siSection 0x73 ssi priv none { tot := some d })] stuffing,
+          ((1 + ptr + (Spec.sectionEncode (siSection 0x73 ssi priv none { tot := some d })).length + stopBytes stuffing : Nat) : Int)⟩) := by
+  have := tot_parse_of writeDescriptor encWF_writer ptr stuffing ssi priv d hd
+  rw [sectionEncodeE_writer, sectionBodyE_writer] at this
+  exact this
+
+/-- the same with every descriptor encoded by the independent reference `Spec.descEncode` -/
+theorem tot_parse_spec (ptr stuffing : Nat) (ssi priv : Bool) (d : TOTData) (hd : TOTWF d) :
+    parsePSIData ⟨Spec.unitEncode ptr [sectionEncodeE Spec.descEncode 0x73 ssi priv none { tot := some d }] stuffing, 0⟩ =
+      .ok ({ pointerField := (ptr : Int),
+             sections := delivered 0x73 ssi priv none { tot := some d } (sectionBodyE Spec.descEncode 0x73 none { tot := some d })
+               :: stopSections stuffing },
+        ⟨Spec.unitEncode ptr [sectionEncodeE Spec.descEncode 0x73 ssi priv none { tot := some d }] stuffing,
+          ((1 + ptr + (sectionEncodeE Spec.descEncode 0x73 ssi priv none { tot := some d }).length + stopBytes stuffing : Nat) : Int)⟩) :=
+  tot_parse_of Spec.descEncode encWF_spec ptr stuffing ssi priv d hd
+
+/-- in the generators' terms: the bytes and the expected value are the two components of `Gen.mkSection` -/
+theorem tot_parse_mkSection (ptr stuffing : Nat) (priv : Bool) (d : TOTData) (hd : TOTWF d) :
+    parsePSIData ⟨Spec.unitEncode ptr [(mkSection 0x73 priv none { tot := some d }).2] stuffing, 0⟩ =
+      .ok ({ pointerField := (ptr : Int), sections := (mkSection 0x73 priv none { tot := some d }).1 :: stopSections stuffing },
+        ⟨Spec.unitEncode ptr [(mkSection 0x73 priv none { tot := some d }).2] stuffing,
+          ((1 + ptr + (mkSection 0x73 priv none { tot := some d }).2.length + stopBytes stuffing : Nat) : Int)⟩) :=
+  parse_mkSection ptr stuffing 0x73 priv none _ _ rfl (tot_parse ptr stuffing false priv d hd)
+
+/-! ### T2: SDT (table ids 0x42, 0x46) -/
+
+theorem sdt_parse_of (enc : Descriptor → Bytes) (E : EncWF enc) (ptr stuffing t : Nat) (ht : t = 0x42 ∨ t = 0x46) (ssi priv : Bool)
+    (sh : PSISectionSyntaxHeader) (hsh : SyntaxHeaderOk sh) (d : SDTData) (hd : SDTWF d) :
+    parsePSIData ⟨Spec.unitEncode ptr [sectionEncodeE enc t ssi priv (some sh) { sdt := some d }] stuffing, 0⟩ =
+      .ok ({ pointerField := (ptr : Int),
+             sections := delivered t ssi priv (some sh) { sdt := some { d with transportStreamID := sh.tableIDExtension } }
+               (sectionBodyE enc t (some sh) { sdt := some d }) :: stopSections stuffing },
+        ⟨Spec.unitEncode ptr [sectionEncodeE enc t ssi priv (some sh) { sdt := some d }] stuffing,
+          ((1 + ptr + (sectionEncodeE enc t ssi priv (some sh) { sdt := some d }).length + stopBytes stuffing : Nat) : Int)⟩) := by
+  rw [sectionBodyE_sdt enc t ht sh d]
+  exact sdt_parse_enc enc E.pos ptr stuffing t ht ssi priv sh hsh d (hd.ok E)
+
+/-- **SDT**: 16-bit original network id and service ids, both EIT flags, 3-bit running status, free CA mode, a loop of
+well-formed descriptors per service; the transport stream id delivered is the header's table_id_extension -/
+theorem sdt_parse (ptr stuffing t : Nat) (ht : t = 0x42 ∨ t = 0x46) (ssi priv : Bool)
+    (sh : PSISectionSyntaxHeader) (hsh : SyntaxHeaderOk sh) (d : SDTData) (hd : SDTWF d) :
+    parsePSIData ⟨Spec.unitEncode ptr [Spec.sectionEncode (siSection t ssi priv (some sh) { sdt := some d })] stuffing, 0⟩ =
+      .ok ({ pointerField := (ptr : Int),
+             sections := delivered t ssi priv (some sh) { sdt := some { d with transportStreamID := sh.tableIDExtension } }
+               (sectionBody t (some sh) { sdt := some d }) :: stopSections stuffing },
+        ⟨Spec.unitEncode ptr [Spec.sectionEncode (siSection t ssi priv (some sh) { sdt := some d })] stuffing,
+          ((1 + ptr + (Spec.sectionEncode (siSection t ssi priv (some sh) { sdt := some d })).length + stopBytes stuffing : Nat) : Int)⟩) := by
+  have := sdt_parse_of writeDescriptor encWF_writer ptr stuffing t ht ssi priv sh hsh d hd
+  rw [sectionEncodeE_writer, sectionBodyE_writer] at this
+  exact this
+
+theorem sdt_parse_spec (ptr stuffing t : Nat) (ht : t = 0x42 ∨ t = 0x46) (ssi priv : Bool)
+    (sh : PSISectionSyntaxHeader) (hsh : SyntaxHeaderOk sh) (d : SDTData) (hd : SDTWF d) :
+    parsePSIData ⟨Spec.unitEncode ptr [sectionEncodeE Spec.descEncode t ssi priv (some sh) { sdt := some d }] stuffing, 0⟩ =
+      .ok ({ pointerField := (ptr : Int),
+             sections := delivered t ssi priv (some sh) { sdt := some { d with transportStreamID := sh.tableIDExtension } }
+               (sectionBodyE Spec.descEncode t (some sh) { sdt := some d }) :: stopSections stuffing },
+        ⟨Spec.unitEncode ptr [sectionEncodeE Spec.descEncode t ssi priv (some sh) { sdt := some d }] stuffing,
+          ((1 + ptr + (sectionEncodeE Spec.descEncode t ssi priv (some sh) { sdt := some d }).length + stopBytes stuffing : Nat) : Int)⟩) :=
+  sdt_parse_of Spec.descEncode encWF_spec ptr stuffing t ht ssi priv sh hsh d hd
+
+/-- in the generators' terms (`genSectionOfKind 2`: the syntax header carries the transport stream id) -/
+theorem sdt_parse_mkSection (ptr stuffing t : Nat) (ht : t = 0x42 ∨ t = 0x46) (priv : Bool)
+    (sh : PSISectionSyntaxHeader) (hsh : SyntaxHeaderOk sh) (d : SDTData) (hd : SDTWF d) (hext : sh.tableIDExtension = d.transportStreamID) :
+    parsePSIData ⟨Spec.unitEncode ptr [(mkSection t priv (some sh) { sdt := some d }).2] stuffing, 0⟩ =
+      .ok ({ pointerField := (ptr : Int), sections := (mkSection t priv (some sh) { sdt := some d }).1 :: stopSections stuffing },
+        ⟨Spec.unitEncode ptr [(mkSection t priv (some sh) { sdt := some d }).2] stuffing,
+          ((1 + ptr + (mkSection t priv (some sh) { sdt := some d }).2.length + stopBytes stuffing : Nat) : Int)⟩) :=
+  parse_mkSection ptr stuffing t priv (some sh) _ _ (by rw [hext]) (sdt_parse ptr stuffing t ht true priv sh hsh d hd)
+
+/-! ### T3: NIT (table ids 0x40, 0x41) -/
+
+theorem nit_parse_of (enc : Descriptor → Bytes) (E : EncWF enc) (ptr stuffing t : Nat) (ht : t = 0x40 ∨ t = 0x41) (ssi priv : Bool)
+    (sh : PSISectionSyntaxHeader) (hsh : SyntaxHeaderOk sh) (d : NITData) (hd : NITWF d) :
+    parsePSIData ⟨Spec.unitEncode ptr [sectionEncodeE enc t ssi priv (some sh) { nit := some d }] stuffing, 0⟩ =
+      .ok ({ pointerField := (ptr : Int),
+             sections := delivered t ssi priv (some sh) { nit := some { d with networkID := sh.tableIDExtension } }
+               (sectionBodyE enc t (some sh) { nit := some d }) :: stopSections stuffing },
+        ⟨Spec.unitEncode ptr [sectionEncodeE enc t ssi priv (some sh) { nit := some d }] stuffing,
+          ((1 + ptr + (sectionEncodeE enc t ssi priv (some sh) { nit := some d }).length + stopBytes stuffing : Nat) : Int)⟩) := by
+  rw [sectionBodyE_nit enc t ht sh d]
+  exact nit_parse_enc enc E.pos ptr stuffing t ht ssi priv sh hsh d (hd.ok E)
+
+/-- **NIT**: a loop of well-formed network descriptors, the transport stream loop (16-bit transport stream id and
+original network id, a loop of well-formed descriptors each); the network id delivered is the table_id_extension -/
+theorem nit_parse (ptr stuffing t : Nat) (ht : t = 0x40 ∨ t = 0x41) (ssi priv : Bool)
+    (sh : PSISectionSyntaxHeader) (hsh : SyntaxHeaderOk sh) (d : NITData) (hd : NITWF d) :
+    parsePSIData ⟨Spec.unitEncode ptr [Spec.sectionEncode (siSection t ssi priv (some sh) { nit := some d })] stuffing, 0⟩ =
+      .ok ({ pointerField := (ptr : Int),
+             sections := delivered t ssi priv (some sh) { nit := some { d with networkID := sh.tableIDExtension } }
+               (sectionBody t (some sh) { nit := some d }) :: stopSections stuffing },
+        ⟨Spec.unitEncode ptr [Spec.sectionEncode (siSection t ssi priv (some sh) { nit := some d })] stuffing,
+          ((1 + ptr + (Spec.sectionEncode (siSection t ssi priv (some sh) { nit := some d })).length + stopBytes stuffing : Nat) : Int)⟩) := by
+  have := nit_parse_of writeDescriptor encWF_writer ptr stuffing t ht ssi priv sh hsh d hd
+  rw [sectionEncodeE_writer, sectionBodyE_writer] at this
+  exact this
+
+theorem nit_parse_spec (ptr stuffing t : Nat) (ht : t = 0x40 ∨ t = 0x41) (ssi priv : Bool)
+    (sh : PSISectionSyntaxHeader) (hsh : SyntaxHeaderOk sh) (d : NITData) (hd : NITWF d) :
+    parsePSIData ⟨Spec.unitEncode ptr [sectionEncodeE Spec.descEncode t ssi priv (some sh) { nit := some d }] stuffing, 0⟩ =
+      .ok ({ pointerField := (ptr : Int),
+             sections := delivered t ssi priv (some sh) { nit := some { d with networkID := sh.tableIDExtension } }
+               (sectionBodyE Spec.descEncode t (some sh) { nit := some d }) :: stopSections stuffing },
+        ⟨Spec.unitEncode ptr [sectionEncodeE Spec.descEncode t ssi priv (some sh) { nit := some d }] stuffing,
+          ((1 + ptr + (sectionEncodeE Spec.descEncode t ssi priv (some sh) { nit := some d }).length + stopBytes stuffing : Nat) : Int)⟩) :=
+  nit_parse_of Spec.descEncode encWF_spec ptr stuffing t ht ssi priv sh hsh d hd
+
+theorem nit_parse_mkSection (ptr stuffing t : Nat) (ht : t = 0x40 ∨ t = 0x41) (priv : Bool)
+    (sh : PSISectionSyntaxHeader) (hsh : SyntaxHeaderOk sh) (d : NITData) (hd : NITWF d) (hext : sh.tableIDExtension = d.networkID) :
+    parsePSIData ⟨Spec.unitEncode ptr [(mkSection t priv (some sh) { nit := some d }).2] stuffing, 0⟩ =
+      .ok ({ pointerField := (ptr : Int), sections := (mkSection t priv (some sh) { nit := some d }).1 :: stopSections stuffing },
+        ⟨Spec.unitEncode ptr [(mkSection t priv (some sh) { nit := some d }).2] stuffing,
+          ((1 + ptr + (mkSection t priv (some sh) { nit := some d }).2.length + stopBytes stuffing : Nat) : Int)⟩) :=
+  parse_mkSection ptr stuffing t priv (some sh) _ _ (by rw [hext]) (nit_parse ptr stuffing t ht true priv sh hsh d hd)
+
+/-! ### T4: EIT (table ids 0x4e..0x6f) -/
+
+theorem eit_parse_of (enc : Descriptor → Bytes) (E : EncWF enc) (ptr stuffing t : Nat) (ht : 0x4e ≤ t ∧ t ≤ 0x6f) (ssi priv : Bool)
+    (sh : PSISectionSyntaxHeader) (hsh : SyntaxHeaderOk sh) (d : EITData) (hd : EITWF d) :
+    parsePSIData ⟨Spec.unitEncode ptr [sectionEncodeE enc t ssi priv (some sh) { eit := some d }] stuffing, 0⟩ =
+      .ok ({ pointerField := (ptr : Int),
+             sections := delivered t ssi priv (some sh) { eit := some { d with serviceID := sh.tableIDExtension } }
+               (sectionBodyE enc t (some sh) { eit := some d }) :: stopSections stuffing },
+        ⟨Spec.unitEncode ptr [sectionEncodeE enc t ssi priv (some sh) { eit := some d }] stuffing,
+          ((1 + ptr + (sectionEncodeE enc t ssi priv (some sh) { eit := some d }).length + stopBytes stuffing : Nat) : Int)⟩) := by
+  rw [sectionBodyE_eit enc t ht sh d]
+  exact eit_parse_enc enc E.pos ptr stuffing t ht ssi priv sh hsh d (hd.ok E)
+
+/-- **EIT**: 16-bit transport stream / original network ids, 8-bit segment_last_section_number and last_table_id,
+events with 16-bit id, start time within MJD 15079..65535, duration in whole seconds below 160 h (six valid BCD digits
+below 100 h; `SIRT.DurationSecondsOk`), 3-bit running status, free CA mode and a loop of well-formed descriptors; the service id delivered is the
+table_id_extension -/
+theorem eit_parse (ptr stuffing t : Nat) (ht : 0x4e ≤ t ∧ t ≤ 0x6f) (ssi priv : Bool)
+    (sh : PSISectionSyntaxHeader) (hsh : SyntaxHeaderOk sh) (d : EITData) (hd : EITWF d) :
+    parsePSIData ⟨Spec.unitEncode ptr [Spec.sectionEncode (siSection t ssi priv (some sh) { eit := some d })] stuffing, 0⟩ =
+      .ok ({ pointerField := (ptr : Int),
+             sections := delivered t ssi priv (some sh) { eit := some { d with serviceID := sh.tableIDExtension } }
+               (sectionBody t (some sh) { eit := some d }) :: stopSections stuffing },
+        ⟨Spec.unitEncode ptr [Spec.sectionEncode (siSection t ssi priv (some sh) { eit := some d })] stuffing,
+          ((1 + ptr + (Spec.sectionEncode (siSection t ssi priv (some sh) { eit := some d })).length + stopBytes stuffing : Nat) : Int)⟩) := by
+  have := eit_parse_of writeDescriptor encWF_writer ptr stuffing t ht ssi priv sh hsh d hd
+  rw [sectionEncodeE_writer, sectionBodyE_writer] at this
+  exact this
+
+theorem eit_parse_spec (ptr stuffing t : Nat) (ht : 0x4e ≤ t ∧ t ≤ 0x6f) (ssi priv : Bool)
+    (sh : PSISectionSyntaxHeader) (hsh : SyntaxHeaderOk sh) (d : EITData) (hd : EITWF d) :
+    parsePSIData ⟨Spec.unitEncode ptr [sectionEncodeE Spec.descEncode t ssi priv (some sh) { eit := some d }] stuffing, 0⟩ =
+      .ok ({ pointerField := (ptr : Int),
+             sections := delivered t ssi priv (some sh) { eit := some { d with serviceID := sh.tableIDExtension } }
+               (sectionBodyE Spec.descEncode t (some sh) { eit := some d }) :: stopSections stuffing },
+        ⟨Spec.unitEncode ptr [sectionEncodeE Spec.descEncode t ssi priv (some sh) { eit := some d }] stuffing,
+          ((1 + ptr + (sectionEncodeE Spec.descEncode t ssi priv (some sh) { eit := some d }).length + stopBytes stuffing : Nat) : Int)⟩) :=
+  eit_parse_of Spec.descEncode encWF_spec ptr stuffing t ht ssi priv sh hsh d hd
+
+theorem eit_parse_mkSection (ptr stuffing t : Nat) (ht : 0x4e ≤ t ∧ t ≤ 0x6f) (priv : Bool)
+    (sh : PSISectionSyntaxHeader) (hsh : SyntaxHeaderOk sh) (d : EITData) (hd : EITWF d) (hext : sh.tableIDExtension = d.serviceID) :
+    parsePSIData ⟨Spec.unitEncode ptr [(mkSection t priv (some sh) { eit := some d }).2] stuffing, 0⟩ =
+      .ok ({ pointerField := (ptr : Int), sections := (mkSection t priv (some sh) { eit := some d }).1 :: stopSections stuffing },
+        ⟨Spec.unitEncode ptr [(mkSection t priv (some sh) { eit := some d }).2] stuffing,
+          ((1 + ptr + (mkSection t priv (some sh) { eit := some d }).2.length + stopBytes stuffing : Nat) : Int)⟩) :=
+  parse_mkSection ptr stuffing t priv (some sh) _ _ (by rw [hext]) (eit_parse ptr stuffing t ht true priv sh hsh d hd)
+
+/-! ### several sections in one unit -/
+
+/-- **any sequence of sections that each parse wherever they stand** (`SIRT.SecAt`: the `*_secAt` lemmas give it for TOT,
+SDT, NIT, EIT) in one PSI unit: delivered one by one, then the stop section of the stuffing -/
+theorem si_unit_parse (ptr stuffing : Nat) (secs : List (Bytes × PSISection)) (h : ∀ p ∈ secs, SecAt p) :
+    parsePSIData ⟨Spec.unitEncode ptr (secs.map (·.1)) stuffing, 0⟩ =
+      .ok ({ pointerField := (ptr : Int), sections := secs.map (·.2) ++ stopSections stuffing },
+        ⟨Spec.unitEncode ptr (secs.map (·.1)) stuffing,
+          ((1 + ptr + (secs.map (·.1)).flatten.length + stopBytes stuffing : Nat) : Int)⟩) :=
+  parsePSIData_unit ptr stuffing secs h
+
+/-! ### non-vacuity: concrete, non-trivial tables that satisfy the hypotheses -/
+
+/-- 1993-10-13 12:45:00 UTC (MJD 49273, the example of EN 300 468 Annex C) with a local time offset descriptor -/
+def exTOT : TOTData :=
+  { utcTime := 750516300
+    descriptors := [ofLocalTimeOffset { items := [{ countryCode := [0x46, 0x52, 0x41], countryRegionID := 1, localTimeOffsetPolarity := false, localTimeOffset := 3600000000000, timeOfChange := 751510800, nextTimeOffset := 7200000000000 }] }] }
+
+theorem exTOT_wf : TOTWF exTOT := by
+  refine ⟨by decide, ?_, by decide⟩
+  intro x hx
+  simp [exTOT] at hx; subst hx
+  refine .typed _ (.local_time_offset _ ⟨?_, by decide, by decide⟩)
+  intro a ha; simp at ha; subst ha
+  exact ⟨by decide, by decide, by decide, by decide, by decide⟩
+
+/-- pointer_field 3, two stuffing bytes: the TOT and the "Null" stop section come back -/
+example : ∃ i, parsePSIData ⟨Spec.unitEncode 3 [Spec.sectionEncode (siSection 0x73 false true none { tot := some exTOT })] 2, 0⟩ =
+    .ok ({ pointerField := 3, sections := [delivered 0x73 false true none { tot := some exTOT } (sectionBody 0x73 none { tot := some exTOT }),
+      stopSection] }, i) := ⟨_, tot_parse 3 2 false true exTOT exTOT_wf⟩
+
+example : (delivered 0x73 false true none { tot := some exTOT } (sectionBody 0x73 none { tot := some exTOT })).header.map
+    (fun h => (h.privateBit, h.sectionLength, h.sectionSyntaxIndicator, h.tableID, h.tableType)) = some (true, 26, false, 0x73, "TOT") := by
+  decide +kernel
+
+def exSyntaxHeader (ext : Nat) : PSISectionSyntaxHeader :=
+  { currentNextIndicator := true, tableIDExtension := ext, versionNumber := 17, sectionNumber := 1, lastSectionNumber := 2 }
+
+theorem exSyntaxHeader_ok (ext : Nat) (h : ext < 65536) : SyntaxHeaderOk (exSyntaxHeader ext) :=
+  ⟨h, by simp [exSyntaxHeader], by simp [exSyntaxHeader], by simp [exSyntaxHeader]⟩
+
+def exSDT : SDTData :=
+  { originalNetworkID := 0x2222, transportStreamID := 7
+    services := [
+      { serviceID := 0x1234, hasEITSchedule := true, hasEITPresentFollowing := false, runningStatus := 4, hasFreeCSAMode := false,
+        descriptors := [ofService { type := 1, provider := [0x70, 0x72], name := [0x6e, 0x61, 0x6d] }] },
+      { serviceID := 65535, hasEITSchedule := false, hasEITPresentFollowing := true, runningStatus := 7, hasFreeCSAMode := true }] }
+
+theorem exSDT_wf : SDTWF exSDT := by
+  refine ⟨by decide, ?_, by decide⟩
+  intro s hs
+  simp [exSDT] at hs
+  rcases hs with rfl | rfl
+  · refine ⟨by decide, by decide, ?_, by decide⟩
+    intro x hx; simp at hx; subst hx
+    exact .typed _ (.service _ ⟨by decide, by decide⟩)
+  · refine ⟨by decide, by decide, ?_, by decide⟩
+    intro x hx; cases hx
+
+example : ∃ i, parsePSIData ⟨Spec.unitEncode 0 [Spec.sectionEncode (siSection 0x46 true false (some (exSyntaxHeader 7)) { sdt := some exSDT })] 0, 0⟩ =
+    .ok ({ pointerField := 0, sections := [delivered 0x46 true false (some (exSyntaxHeader 7)) { sdt := some exSDT }
+      (sectionBody 0x46 (some (exSyntaxHeader 7)) { sdt := some exSDT })] }, i) :=
+  ⟨_, sdt_parse 0 0 0x46 (.inr rfl) true false (exSyntaxHeader 7) (exSyntaxHeader_ok 7 (by decide)) exSDT exSDT_wf⟩
+
+def exNIT : NITData :=
+  { networkID := 0x3001
+    networkDescriptors := [ofNetworkName { name := [0x6e, 0x65, 0x74] }]
+    transportStreams := [
+      { transportStreamID := 1, originalNetworkID := 0x2222, transportDescriptors := [userDescriptor 0x83 [1, 2, 3, 4]] },
+      { transportStreamID := 65535, originalNetworkID := 0 }] }
+
+theorem exNIT_wf : NITWF exNIT := by
+  refine ⟨?_, ?_, by decide⟩
+  · intro x hx; simp [exNIT] at hx; subst hx
+    exact .typed _ (.network_name _ ⟨by decide, by decide⟩)
+  · intro t ht
+    simp [exNIT] at ht
+    rcases ht with rfl | rfl
+    · refine ⟨by decide, by decide, ?_, by decide⟩
+      intro x hx; simp at hx; subst hx
+      exact .user 0x83 [1, 2, 3, 4] (by decide) (by decide)
+    · refine ⟨by decide, by decide, ?_, by decide⟩
+      intro x hx; cases hx
+
+example : ∃ i, parsePSIData ⟨Spec.unitEncode 255 [sectionEncodeE Spec.descEncode 0x40 true true (some (exSyntaxHeader 0x3001)) { nit := some exNIT }] 100, 0⟩ =
+    .ok ({ pointerField := 255, sections := [delivered 0x40 true true (some (exSyntaxHeader 0x3001)) { nit := some exNIT }
+      (sectionBodyE Spec.descEncode 0x40 (some (exSyntaxHeader 0x3001)) { nit := some exNIT }), stopSection] }, i) :=
+  ⟨_, nit_parse_spec 255 100 0x40 (.inl rfl) true true (exSyntaxHeader 0x3001) (exSyntaxHeader_ok _ (by decide)) exNIT exNIT_wf⟩
+
+/-- an event of 1 h 30 min 15 s with a short event descriptor and an AC-3 descriptor (the kind on which reference and
+library bytes differ), and an event without descriptors in the last second of the MJD range with the longest duration (159:59:59) -/
+def exEIT : EITData :=
+  { transportStreamID := 7, originalNetworkID := 0x2222, segmentLastSectionNumber := 8, lastTableID := 0x5f, serviceID := 0x1234
+    events := [
+      { eventID := 0x10, startTime := 750516300, duration := 5415000000000, runningStatus := 4, hasFreeCSAMode := true,
+        descriptors := [ofShortEvent { language := [0x65, 0x6e, 0x67], eventName := [0x4e, 0x65, 0x77, 0x73], text := [0x2e] },
+          ofAC3 { hasComponentType := true, componentType := 0x42, additionalInfo := [9] }] },
+      { eventID := 65535, startTime := 2155593599, duration := 575999000000000, runningStatus := 0, hasFreeCSAMode := false }] }
+
+theorem exEIT_wf : EITWF exEIT := by
+  refine ⟨by decide, by decide, by decide, by decide, ?_, by decide⟩
+  intro e he
+  simp [exEIT] at he
+  rcases he with rfl | rfl
+  · refine ⟨by decide, by decide, by decide, by decide, ?_, by decide⟩
+    intro x hx; simp at hx
+    rcases hx with rfl | rfl
+    · exact .typed _ (.short_event _ ⟨by decide, by decide⟩)
+    · exact .typed _ (.ac3 _ ⟨by decide, by decide, by decide, by decide, by decide⟩)
+  · refine ⟨by decide, by decide, by decide, by decide, ?_, by decide⟩
+    intro x hx; cases hx
+
+example : ∃ i, parsePSIData ⟨Spec.unitEncode 1 [sectionEncodeE Spec.descEncode 0x4e true false (some (exSyntaxHeader 0x1234)) { eit := some exEIT }] 1, 0⟩ =
+    .ok ({ pointerField := 1, sections := [delivered 0x4e true false (some (exSyntaxHeader 0x1234)) { eit := some exEIT }
+      (sectionBodyE Spec.descEncode 0x4e (some (exSyntaxHeader 0x1234)) { eit := some exEIT }), stopSection] }, i) :=
+  ⟨_, eit_parse_spec 1 1 0x4e (by decide) true false (exSyntaxHeader 0x1234) (exSyntaxHeader_ok _ (by decide)) exEIT exEIT_wf⟩
+
+/-- the generators' form for the same EIT: `exSyntaxHeader 0x1234` carries the service id of `exEIT` -/
+example : ∃ i, parsePSIData ⟨Spec.unitEncode 0 [(mkSection 0x6f false (some (exSyntaxHeader 0x1234)) { eit := some exEIT }).2] 0, 0⟩ =
+    .ok ({ pointerField := 0, sections := [(mkSection 0x6f false (some (exSyntaxHeader 0x1234)) { eit := some exEIT }).1] }, i) :=
+  ⟨_, eit_parse_mkSection 0 0 0x6f (by decide) false (exSyntaxHeader 0x1234) (exSyntaxHeader_ok _ (by decide)) exEIT exEIT_wf rfl⟩
+
+/-- the first bytes of the reference EIT section of `exEIT`: table id, section_length 0x038 = 56, service id, version 17 + current -/
+example : (Spec.sectionEncode (siSection 0x4e true false (some (exSyntaxHeader 0x1234)) { eit := some exEIT })).take 8
+    = [0x4e, 0xb0, 0x38, 0x12, 0x34, 0xe3, 1, 2] := by decide +kernel
+
+end SITables
 
 end Astits.C13
